@@ -111,6 +111,9 @@ def isoformat(dt: datetime.date | datetime.time | datetime.timedelta) -> str:
     """
     if isinstance(dt, (datetime.date, datetime.time)):
         return dt.isoformat()
+    # ISO-8601 has no negative components: write the sign once, up front.
+    if dt < datetime.timedelta(0):
+        return f"-{isoformat(-dt)}"
     if isinstance(dt, pendulum.Duration):
         years, months = dt.years, dt.months
         # `remaining_days` excludes whole weeks - count them back in.
@@ -217,6 +220,17 @@ def dateparse(val: str, t: type[DateTimeT]) -> DateTimeT:
             If `val` is not a date string or does not resolve to an instance of
             the target datetime type.
     """
+    # A signed duration ("-P1D"): parse the magnitude, then negate.
+    if val.startswith("-P") and issubclass(t, datetime.timedelta):
+        magnitude = dateparse(val[1:], t)
+        # Negate the exact underlying value (the parser's Duration derives its
+        #   own attributes, and its negation, from float seconds).
+        base = datetime.timedelta
+        return -base(  # type: ignore[return-value]
+            days=base.days.__get__(magnitude),
+            seconds=base.seconds.__get__(magnitude),
+            microseconds=base.microseconds.__get__(magnitude),
+        )
     try:
         # When `exact=False`, the only two possibilities are DateTime and Duration.
         parsed: pendulum.DateTime | pendulum.Duration = pendulum.parse(val)  # type: ignore[assignment]
